@@ -89,7 +89,8 @@ def run_mode(exe, data, mode, n, env, workdir, frag=None, timeout=120):
 class Check(PropertyCheck):
     pid = "C09"
     props_module = "Properties.Properties_C09"
-    extra_targets = ["Extract/ExtractSchedX.vo"]
+    extra_targets = ["Extract/ExtractSchedX.vo", "Extract/ExtractRetr.vo"]
+    extra_props = ["Properties.Properties_C09retr"]
     gen_files = ["SchedXTab.v", "Consts.v", "DecTabs.v", "CrcTab.v"]
     trusted_base = [
         "Coq 8.16.1 kernel (coqc); no axioms",
@@ -98,9 +99,14 @@ class Check(PropertyCheck):
         "the results of parse/retrieve/emit are functions of (stream, bit position): hypothesis (oracle O) of the process-level "
         "theorems; the two codec-layer facts it rests on are theorems about other models - emit() over any buffer sizes "
         "(C09_codec_output_buffer_sizes, array-level model Safe/EmitModel.v tied to decode.c by C08's harness safe_h_emit.c) and "
-        "chunked feeding of bit-reader programs (C09_codec_input_chunking, Dec/Prog.v readers; the real retrieve()'s save/restore "
-        "of its local state at MORE is NOT modelled statement by statement) - the link between them and the oracle is supported "
-        "by the cross-configuration runs of the real binary with many in/out granules",
+        "chunked feeding of bit-reader programs (C09_codec_input_chunking); and, for retrieve() itself, Properties_C09retr: a "
+        "statement-level resumable model of retrieve() (Safe/RetrModel.v: every state of the switch, NEED/NEED_FAST, SAVE/RESTORE, fast "
+        "and slow symbol loop as separate code, bounds-checked arrays, explicit widths) is proved safe for all inputs and chunkings, "
+        "CHUNK INDEPENDENT (C09retr_chunk_independent: the result depends only on the concatenation of the input), fast path = slow "
+        "path, and a refinement of Dec/Format.v's read_block (C09retr_refines_format / _complete / _rejects; the only difference: "
+        "retrieve() wants 32 bits of slack behind the block, which every file has); tied call by call (return code, saved state, "
+        "tt[], ftab[]) to the real retrieve() built with ASan/UBSan (checks/retr_part.py). What stays an assumption of the process-level "
+        "theorem: that parse()/retrieve()/decode()/emit() as modelled are what the threads run between the scheduler's lock operations",
         "output mode: the byte sequence handed to xwrite() is what the theorem speaks about; that stdout/file/-c/-t only "
         "differ in where xwrite() sends it is checked by the direct runs, not proved",
     ]
@@ -111,7 +117,20 @@ class Check(PropertyCheck):
 
     def correspond(self):
         n = 40 if self.tier == "quick" else 400
-        return sp.correspond_replay(self, n, kinds=["plain", "plain", "selzeros", "garbage", "blkcrc", "trunc", "strmcrc"])
+        cov = sp.correspond_replay(self, n, kinds=["plain", "plain", "selzeros", "garbage", "blkcrc", "trunc", "strmcrc"])
+        # the oracle of the process-level theorem for retrieve(): statement-level resumable model (Safe/RetrModel.v), proved chunk
+        # independent and a refinement of the format description; tied call by call to the real retrieve() under ASan/UBSan
+        try:
+            import retr_part
+            rc = retr_part.correspond(self) or {}
+            cov["evaluations"] = int(cov.get("evaluations", 0)) + int(rc.get("evaluations", 0))
+            cov["distinct_nontrivial"] = int(cov.get("distinct_nontrivial", 0)) + int(rc.get("distinct_nontrivial", 0))
+            cov["retrieve_model"] = {k: v for k, v in rc.items() if k != "samples"}
+        except vlib.BuildError:
+            raise
+        except Exception as e:
+            self.broken.append(Broken("correspondence", "retr_part.correspond crashed", repr(e)[:800]))
+        return cov
 
     def direct(self):
         """Cross-configuration comparison on the real binary against `-n1` with the shipped granules."""
